@@ -106,6 +106,21 @@ func cmdSimple(fs *flag.FlagSet, args []string) {
 		sizes := map[string]uint64{}
 		for i := 0; i < *nops && !s.dead; i++ {
 			r := s.r
+			if r.Chance(1, 60) {
+				// the server is started again on the same disk, the way cmd/simple-nfsd starts (MakeNfs:
+				// log recovery + inode initialisation) or the way the recovery example does (Recover)
+				how := r.Intn(2)
+				if !s.guarded("srestart", func() {
+					if how == 0 {
+						s.srv = simple.MakeNfs(d)
+					} else {
+						s.srv = simple.Recover(d)
+					}
+				}) {
+					break
+				}
+				emit("srestart")
+			}
 			h := s.pickFh()
 			cur := sizes[hx(h)]
 			switch k := r.Intn(20); {
